@@ -12,6 +12,8 @@ Proof. destruct y as [a b]. unfold cinv, cscale, cconj, cabs2, Cinv; cbn [fst sn
   f_equal; unfold Rdiv; replace (a ^ 2 + b ^ 2)%R with (a * a + b * b)%R by ring; ring. Qed.
 Lemma cdiv_RO (x y : C) : cdiv RO x y = x / y.
 Proof. unfold cdiv. rewrite cinv_RO. reflexivity. Qed.
+Lemma cabs_RO (z : C) : cabs RO z = Cmod z.
+Proof. unfold cabs. rewrite cabs2_RO. cbn [osqrt RO]. apply sqrt_square. apply Cmod_ge_0. Qed.
 Lemma half_RO : half RO = (/ 2)%R.
 Proof. unfold half; cbn [oinv oadd o1 RO]. f_equal. Qed.
 
@@ -187,8 +189,8 @@ Definition solves (D : nat) (A phi B : mat) :=
   forall i j, (i < D)%nat -> (j < D)%nat -> csum D (fun k => A i k * phi k j) = B i j.
 
 Lemma souden_RO D phi eps r i :
-  souden RO D phi eps r i = RtoC (/ Rmax (fst (tr D phi)) eps) * phi i r.
-Proof. unfold souden. rewrite cscale_RO, omax_RO, bf_trace_RO. reflexivity. Qed.
+  souden RO D phi eps r i = RtoC (/ Rmax (Cmod (tr D phi)) eps) * phi i r.
+Proof. unfold souden. rewrite cscale_RO, omax_RO, cabs_RO, bf_trace_RO. reflexivity. Qed.
 Lemma wmwf_RO D phi mu r i : wmwf RO D phi mu r i = phi i r / (RtoC mu + tr D phi).
 Proof. unfold wmwf. rewrite cdiv_RO, bf_trace_RO. reflexivity. Qed.
 
@@ -215,7 +217,7 @@ Qed.
 Theorem souden_scale_inv D (Pn Px phi phi' : mat) (c d eps : R) r i :
   posdef D Pn -> (0 < c)%R -> (0 < d)%R -> solves D Pn phi Px ->
   solves D (fun i k => RtoC c * Pn i k) phi' (fun i j => RtoC d * Px i j) ->
-  (0 < fst (tr D phi))%R -> (eps <= fst (tr D phi))%R -> (eps <= d / c * fst (tr D phi))%R ->
+  (0 < Cmod (tr D phi))%R -> (eps <= Cmod (tr D phi))%R -> (eps <= d / c * Cmod (tr D phi))%R ->
   (i < D)%nat -> (r < D)%nat ->
   souden RO D phi' eps r i = souden RO D phi eps r i.
 Proof.
@@ -223,8 +225,8 @@ Proof.
   assert (Hk : (0 < d / c)%R) by (apply Rdiv_lt_0_compat; lra).
   assert (Etr : tr D phi' = RtoC (d / c) * tr D phi).
   { unfold tr. rewrite <- csum_scal. apply csum_ext; intros k Hk'. apply (solve_scale D Pn Px phi phi' c d); auto. }
-  rewrite Etr, fst_Cmult_R. rewrite (solve_scale D Pn Px phi phi' c d) by auto.
-  rewrite !Rmax_left by lra. set (t := fst (tr D phi)) in *.
+  rewrite Etr, Cmod_mult, Cmod_R, (Rabs_pos_eq (d / c)) by lra. rewrite (solve_scale D Pn Px phi phi' c d) by auto.
+  rewrite !Rmax_left by lra. set (t := Cmod (tr D phi)) in *.
   rewrite Rinv_mult, RtoC_mult. rewrite !RtoC_inv by lra.
   asC. field. split; apply RtoC_neq0; lra.
 Qed.
@@ -246,7 +248,8 @@ Theorem wmwf_mu0_is_souden D (phi : mat) (eps : R) r i :
   snd (tr D phi) = 0%R -> (0 < eps)%R -> (eps <= fst (tr D phi))%R ->
   wmwf RO D phi 0 r i = souden RO D phi eps r i.
 Proof.
-  intros Hre He Ht. rewrite wmwf_RO, souden_RO. rewrite Rmax_left by lra.
+  intros Hre He Ht. rewrite wmwf_RO, souden_RO.
+  rewrite (C_real_eq (tr D phi) Hre) at 2. rewrite Cmod_R, Rabs_pos_eq by lra. rewrite Rmax_left by lra.
   rewrite (C_real_eq (tr D phi) Hre) at 1. rewrite <- RtoC_plus, Rplus_0_l.
   unfold Cdiv. rewrite <- RtoC_inv by lra. asC. ring.
 Qed.
@@ -278,8 +281,8 @@ Theorem souden_rank1 eps r i : (eps <= sigma * fst (dot D a x))%R -> (r < D)%nat
   souden RO D phi eps r i = Cconj (a r) * mvdr RO D a x i.
 Proof.
   intros He Hr Hi. destruct rank1_den as [E Hpos]. rewrite souden_RO, mvdr_RO, rank1_tr, rank1_phi by auto.
-  cbn [fst RtoC]. assert (0 < sigma * fst (dot D a x))%R by (apply Rmult_lt_0_compat; auto).
-  rewrite Rmax_left by lra. rewrite E at 2. set (c := fst (dot D a x)) in *.
+  assert (0 < sigma * fst (dot D a x))%R by (apply Rmult_lt_0_compat; auto).
+  rewrite Cmod_R, Rabs_pos_eq by lra. rewrite Rmax_left by lra. rewrite E at 2. set (c := fst (dot D a x)) in *.
   rewrite RtoC_inv, RtoC_mult by lra. asC. field. split; apply RtoC_neq0; lra.
 Qed.
 (* it reproduces the target at the reference channel: w^H a = a_ref *)
